@@ -252,6 +252,16 @@ func c04Request(s *Svc, m *spec.Method, l *Layout, v any, issues []spec.Issue, r
 	}
 	p, pv := suspect(l, sentN)
 	if call.ServerPanic != "" {
+		if call.ServerReq == nil && len(issues) > 0 {
+			// the generated client itself failed (nil dereference in a body constructor) on a
+			// payload that violates the design, before anything was sent: no request exists, user
+			// code did not run; the statement asks nothing of the client here (as for the server
+			// and a result that violates the design, see c04Result)
+			if report {
+				r.outcome("client-panic-on-invalid-payload")
+			}
+			return sigs
+		}
 		fail("C04 server-panic "+featSig(m, p)+" "+panicSite(call.ServerPanic), "server handler panicked: "+call.ServerPanic)
 		return sigs
 	}
